@@ -11,6 +11,9 @@ A sampler whose construction panics with an integer division by zero answers `pa
 One long-lived StressRelief per case (case args smode=<never|monitor|always> srate=<n>, default never/100):
   sreload <mode> <rate>   (no obs)      srecalc   obs stressed=<bool>
   sask <id>   ext wyhash <id> = <h>     obs A <long-lived answer> B <answer of a fresh instance at the rate configured last>
+Wiring leg (case args coll=1 crate=<n>): a real InMemCollector whose reload callback is fired with non-empty hashes:
+  creload cfg|rules|both <rate>   (no obs; the collector's reloadConfigs must call UpdateFromConfig)
+  cask <id>   ext wyhash <id> = <h>     obs A <collector's StressRelief> B <fresh instance at the rate in force> P <keep> <stamped rate|->
 -/
 open Refinery.Model.Deterministic Oracle
 
@@ -47,18 +50,37 @@ def parseMode : String → Option Mode
 structure OSt where
   live : Outcome Relief
   cfgRate : Nat
+  cl : Outcome Relief := Relief.init .always 100     -- the StressRelief behind the collector (wiring leg)
+  crate : Nat := 100                                 -- SamplingRate in force in its configuration
 
 def determStep (st : OSt) (op : List String) (exts : List (List String)) : OSt × Option String :=
   match op with
   | ["sreload", mode, rate] =>
     match parseMode mode, rate.toNat? with
-    | some m, some r => ({ live := Relief.run st.live [.reload m r], cfgRate := r }, none)
+    | some m, some r => ({ st with live := Relief.run st.live [.reload m r], cfgRate := r }, none)
     | _, _ => (st, some "bad-op")
   | ["srecalc"] =>
     let l := Relief.run st.live [.recalc]
     ({ st with live := l }, some (match l with
       | .ok r => s!"stressed={r.stressed}"
       | .panicDivZero => "panic-div0"))
+  | ["creload", which, rate] =>
+    -- every reload callback reaches reloadConfigs -> UpdateFromConfig, whichever hash changed
+    match rate.toNat? with
+    | some r =>
+      if which == "cfg" || which == "rules" || which == "both" then
+        ({ st with cl := Relief.run st.cl [.reload .always r], crate := r }, none)
+      else (st, some "bad-op")
+    | none => (st, some "bad-op")
+  | ["cask", id] =>
+    match extVal exts "wyhash" id with
+    | some h =>
+      let da : Outcome Decision := match st.cl with | .ok r => .ok (r.s.get h) | .panicDivZero => .panicDivZero
+      let p := match da with
+        | .ok d => if d.keep then s!"true {d.rate}" else "false -"
+        | .panicDivZero => "panic-div0"
+      (st, some s!"A {outStr da} B {outStr (stressSample st.crate h)} P {p}")
+    | none => (st, some "bad-ext")
   | ["sask", id] =>
     match extVal exts "wyhash" id with
     | some h =>
@@ -107,6 +129,8 @@ structure Seen where
 structure MSt where
   seen : List Seen := []
   cfgRate : Nat := 100        -- rate configured last on the long-lived StressRelief (from the ops)
+  crate : Nat := 100          -- wiring leg: SamplingRate in force in the collector's configuration
+  cwhich : String := "none"   -- which hash(es) the last reload changed
 
 def fail (sig what : String) : Fail := { prop := "C10", sig := sig, what := what }
 
@@ -200,6 +224,29 @@ def determMon (m : MSt) (op : List String) (_ : List (List String)) (obs : Optio
     match rate.toInt? with
     | some r => monSample m "stress" id r o
     | none => (m, [])
+  | ["creload", which, rate], _ =>
+    match rate.toNat? with
+    | some r => ({ m with crate := r, cwhich := which }, [])
+    | none => (m, [])
+  | ["cask", id], some o =>
+    -- answers of the collector's StressRelief must follow the rate in force after the last reload
+    let toks := o.splitOn " "
+    let ab := toks.takeWhile (· != "P")
+    let p := (toks.dropWhile (· != "P")).drop 1
+    let a := (ab.drop 1).takeWhile (· != "B")
+    let want : Nat := if m.crate ≤ 1 then 1 else m.crate
+    match parseAns a with
+    | some (keep, rr, _) =>
+      if rr != want then
+        (m, [fail s!"C10:stress-rate-not-updated-after-reload:hash={m.cwhich}"
+          s!"id={id}: the configuration in force says rate {m.crate} (last reload changed hash `{m.cwhich}`) but the collector's StressRelief answers `{" ".intercalate a}`"])
+      else
+        let (m', fs) := monSample m "stress" id m.crate (" ".intercalate ab)
+        let okP := if keep then p == ["true", toString rr] else p == ["false", "-"]
+        (m', fs ++ (if okP then [] else
+          [fail "C10:stress-collector-decision-differs"
+            s!"id={id}: StressRelief says `{" ".intercalate a}` but ProcessSpanImmediately did `{" ".intercalate p}`"]))
+    | none => monSample m "stress" id m.crate (" ".intercalate ab)
   | ["sreload", _, rate], _ =>
     match rate.toNat? with
     | some r => ({ m with cfgRate := r }, [])
@@ -218,9 +265,10 @@ def hdrRate (args : List String) : Nat := ((kv args "srate").getD "100").toNat?.
 def comp : Component OSt MSt where
   init := fun args =>
     let m := (parseMode ((kv args "smode").getD "never")).getD .never
-    { live := Relief.init m (hdrRate args), cfgRate := hdrRate args }
+    let cr := ((kv args "crate").getD "100").toNat?.getD 100
+    { live := Relief.init m (hdrRate args), cfgRate := hdrRate args, cl := Relief.init .always cr, crate := cr }
   step := determStep
-  minit := fun args => { cfgRate := hdrRate args }
+  minit := fun args => { cfgRate := hdrRate args, crate := ((kv args "crate").getD "100").toNat?.getD 100 }
   mon := determMon
 
 def main : IO Unit := do runLoop comp (← IO.getStdin)
